@@ -1,16 +1,16 @@
 import Pxv.Model.Borrow
 /-
 The last pass of pavexc's borrow checker, mirrored on abstract call graphs:
- * `findStalemate` ↔ `find_ordering_stalemate` (call_graph/borrow_checker/complex.rs): the node ordering played
+ * `findStalemate` ↔ `find_ordering_stalemates` (call_graph/borrow_checker/complex.rs): the node ordering played
    forward, sweeping the nodes by increasing index until a sweep schedules nothing;
  * `resolveStalemates` ↔ `ordering_stalemates`: clone a contended value for the stuck node if allowed, else report.
-(repo commit 3ac248c "fix: resolve or report ordering stalemates that chain through dependencies")
+(repo commit 437e3c1 "fix: resolve or report ordering stalemates that chain through dependencies")
 Import-free.
 -/
 namespace Pxv.CG
 open Graph
 
-/-- ↔ the `filter` closure of `find_ordering_stalemate`: the dependencies of `n` that `n` takes by value while a node
+/-- ↔ the `filter` closure of `find_ordering_stalemates`: the dependencies of `n` that `n` takes by value while a node
     that has not been scheduled yet still borrows them (Copy values never block). Sorted, without duplicates
     (↔ `dependencies.sort(); dependencies.dedup()`). -/
 def blockedInputs (g : Graph) (placed : List Nat) (n : Nat) : List Nat :=
@@ -20,7 +20,8 @@ def blockedInputs (g : Graph) (placed : List Nat) (n : Nat) : List Nat :=
 structure Sweep where
   placed : List Nat
   progressed : Bool := false
-  stale : Option (Nat × List Nat) := none
+  /-- the stuck nodes seen in this sweep, each with its contended inputs (↔ `stalemates`) -/
+  stale : List (Nat × List Nat) := []
   deriving Repr, DecidableEq
 
 /-- one iteration of the `for node_index in call_graph.node_indices()` loop. -/
@@ -30,8 +31,7 @@ def sweepStep (g : Graph) (ign : List Nat) (st : Sweep) (n : Nat) : Sweep :=
   else
     let bl := if ign.contains n then [] else blockedInputs g st.placed n
     if bl.isEmpty then { st with placed := st.placed ++ [n], progressed := true }
-    else if st.stale.isNone then { st with stale := some (n, bl) }
-    else st
+    else { st with stale := st.stale ++ [(n, bl)] }
 
 def sweep (g : Graph) (ign placed : List Nat) : Sweep :=
   (List.range g.size).foldl (sweepStep g ign) { placed := placed }
@@ -39,14 +39,15 @@ def sweep (g : Graph) (ign placed : List Nat) : Sweep :=
 /-- the sentinel answered when the fuel runs out (never, with `g.size + 1` rounds: `findStalemate_fuel`). -/
 def outOfFuel (g : Graph) : Nat × List Nat := (g.size, [])
 
-/-- ↔ `find_ordering_stalemate`: `none` = every sweep made progress until one found nothing left to do. -/
-def findStalemateLoop (g : Graph) (ign : List Nat) : Nat → List Nat → Option (Nat × List Nat)
-  | 0, _ => some (outOfFuel g)
+/-- ↔ `find_ordering_stalemates`: `[]` = every sweep made progress until one found nothing left to do; otherwise the
+    stuck nodes of the last sweep (the one that scheduled nothing), by increasing index. -/
+def findStalemateLoop (g : Graph) (ign : List Nat) : Nat → List Nat → List (Nat × List Nat)
+  | 0, _ => [outOfFuel g]
   | fuel + 1, placed =>
     let s := sweep g ign placed
     if s.progressed then findStalemateLoop g ign fuel s.placed else s.stale
 
-def findStalemate (g : Graph) (ign : List Nat) : Option (Nat × List Nat) :=
+def findStalemate (g : Graph) (ign : List Nat) : List (Nat × List Nat) :=
   findStalemateLoop g ign (g.size + 1) []
 
 inductive OsDiag where
@@ -61,11 +62,13 @@ def resolveLoop : Nat → Graph → List Nat → List OsDiag → Graph × List O
   | 0, g, _, ds => (g, ds ++ [.outOfFuel])
   | fuel + 1, g, reported, ds =>
     match findStalemate g reported with
-    | none => (g, ds)
-    | some (n, bl) =>
-      match bl.find? (fun b => (g.node b).cloneable) with
-      | some b => resolveLoop fuel (insertClone g b n).1 reported ds
-      | none => resolveLoop fuel g (reported ++ [n]) (ds ++ [.stalemate n bl])
+    | [] => (g, ds)
+    | (n0, bl0) :: rest =>
+      -- clone for the first stuck node that has a contended input which may be cloned ...
+      match ((n0, bl0) :: rest).findSome? (fun s => (s.2.find? (fun b => (g.node b).cloneable)).map (fun b => (s.1, b))) with
+      | some (n, b) => resolveLoop fuel (insertClone g b n).1 reported ds
+      -- ... and when there is none, report the first stuck node and look for stalemates that do not depend on it
+      | none => resolveLoop fuel g (reported ++ [n0]) (ds ++ [.stalemate n0 bl0])
 
 /-- every round either removes a `move` edge out of a clone-if-necessary value (adding one node) or reports one more node:
     `resolve_never_out_of_fuel`. -/
